@@ -226,6 +226,22 @@ def run(ctx):
                        "verdict": {"verdict": v, "pos": pos, "clause": clause}, "tlc_cfg": "FormulaTrace.cfg"})
     if traces:
         ctx.sample({"trace": traces[0]}, cap=10)
+    # binding self-test: a recorded mass that is off by 1e-5 u (relative >= 1e-9) must be rejected
+    import copy
+    bad = []
+    for tr, (v, _, _) in zip(traces, verdicts):
+        if v == "accept" and len(tr[-1]["mass9"]) >= 2 and len(tr[-1]["mass9"]) <= 3:
+            c = copy.deepcopy(tr)
+            c[-1]["mass9"][1] = (c[-1]["mass9"][1] + 1) % 10000
+            bad.append(c)
+        if len(bad) >= 40:
+            break
+    if not bad:
+        raise core.MachineryFailure("binding self-test: no accepted trace to corrupt")
+    for v, pos, clause in ctx.validate_traces("FormulaTrace", "FormulaTrace.cfg", bad, count=False):
+        if v != "reject" or clause != "mass":
+            raise core.MachineryFailure("binding self-test: corrupted mass gave %s/%s" % (v, clause))
+    ctx.counters["selftest_corrupted_traces_rejected"] += len(bad)
 
 
 def replay(ctx, rec):
